@@ -51,6 +51,7 @@ inductive Act where
   | hookret (r : Res) (kill : Bool)         -- handle_hook returns (ok) or is cancelled; kill: `.error` was set
   | semwait | semacq | semcancel            -- `async with self.max_conns[address]`
   | creq                                    -- Task.cancel() while the task is queued on the semaphore
+  | dial (a : Nat)                          -- an addon rewrote data.server.address in the server_connect hook
   | connret (r : Res)                       -- asyncio.open_connection returns / raises OSError / is cancelled
   | ev (k : EvKind) (cmds : List Cmd)       -- server_event(k) and the commands the layer returned
   | readret (r : Res)                       -- reader.read returns data / eof / raises OSError / is cancelled
@@ -93,7 +94,10 @@ inductive PC where
 
 structure Conn where
   key   : Nat
-  addr  : Option Nat
+  req   : Option Nat    -- the address the layer asked for (`command.connection.address` when the task starts)
+  want  : Option Nat    -- the address an addon wrote in the server_connect hook, if any
+  addr  : Option Nat    -- the address that is dialled = the key of `self.max_conns[...]`: read AFTER the server_connect
+                        -- hook has returned (none until then)
   pc    : PC
   entry : Bool          -- `transports[connection]` exists and belongs to this task
   cbs   : List Cb       -- done-callbacks not yet run, in registration order
@@ -122,9 +126,12 @@ def stepS (c : Conn) (a : Act) (ok : Bool) : Option (Conn × List Cmd) :=
   match c.pc, a with
   | .created, .start => some ({ c with pc := .started }, [])
   | .created, .fin => some ({ c with pc := .done }, [])                       -- cancelled before its first step
-  | .started, .ev .cerr cmds => if c.addr = none then some ({ c with pc := .finishing }, cmds) else none
-  | .started, .hook .sc => if c.addr = none then none else some ({ c with pc := .inSC, nSC := c.nSC + 1 }, [])
-  | .inSC, .hookret .ok false => some ({ c with pc := .preSem }, [])
+  | .started, .ev .cerr cmds => if c.req = none then some ({ c with pc := .finishing }, cmds) else none
+  | .started, .hook .sc => if c.req = none then none else some ({ c with pc := .inSC, nSC := c.nSC + 1 }, [])
+  | .inSC, .dial a => some ({ c with want := some a }, [])
+  | .inSC, .hookret .ok false =>
+    -- `self.max_conns[command.connection.address]` is evaluated now, with the address as the hook left it (set once)
+    some ({ c with pc := .preSem, addr := if c.addr.isNone then (match c.want with | some a => some a | none => c.req) else c.addr }, [])
   | .inSC, .hookret .ok true => some ({ c with pc := .preSE .kill }, [])
   | .inSC, .hookret .cancel _ => some ({ c with pc := .preSE .canc }, [])
   | .preSem, .semwait => if ok then some ({ c with pc := .inSem }, []) else none      -- locked(): queue
@@ -245,7 +252,7 @@ def keyFree (conns : List Conn) (key : Nat) : Bool :=
   conns.all (fun c => !(c.entry && c.key == key))
 
 def newConn (key : Nat) (addr : Option Nat) : Conn :=
-  { key, addr, pc := .created, entry := true, cbs := [.release], nSC := 0, nSD := 0, nSE := 0, nSX := 0 }
+  { key, req := addr, want := none, addr := none, pc := .created, entry := true, cbs := [.release], nSC := 0, nSD := 0, nSE := 0, nSX := 0 }
 
 def applyCmd (s : St) : Cmd → Option St
   | .opn key addr =>
